@@ -117,9 +117,12 @@ def handle (j : Json) : Json :=
   | "fingerprint" =>
     let fpEnv := fingerprintEnvOf (envOf (j.getObjValD "stepEnv")) (strsOf j "fpVars")
     let pre := fingerprintPreamble fpEnv
+    let argvHead := (setupFingerprintArgs (S "bash") (getBool j "trace") []).dropLast
     match evalScript ⟨envOf (j.getObjValD "procEnv"), []⟩ pre with
-    | .ok sh => Json.mkObj [("preamble", J pre), ("fpEnv", envJ fpEnv), ("env", envJ sh.env), ("err", Json.null)]
-    | .error e => Json.mkObj [("preamble", J pre), ("fpEnv", envJ fpEnv), ("env", Json.null), ("err", Json.str (errName e))]
+    | .ok sh => Json.mkObj [("preamble", J pre), ("fpEnv", envJ fpEnv), ("env", envJ sh.env), ("err", Json.null),
+        ("argvHead", strsJ argvHead), ("readsRc", Json.bool (bashReadsRc argvHead (getBool j "stdinSocket")))]
+    | .error e => Json.mkObj [("preamble", J pre), ("fpEnv", envJ fpEnv), ("env", Json.null), ("err", Json.str (errName e)),
+        ("argvHead", strsJ argvHead), ("readsRc", Json.bool (bashReadsRc argvHead (getBool j "stdinSocket")))]
   | "fromstep" =>
     let d := descOf (j.getObjValD "desc")
     Json.mkObj [("spec", specJ (specOfStep d (S (getStr j "cwd")))), ("depMounts", pairsJ d.depMounts)]
